@@ -425,6 +425,7 @@ func c13RestartBody(t *testing.T, s *sim.Scn, o *sim.Outcome) {
 	agg := rw.nodes[0]
 	fulls := rw.nodes[1 : 1+nfull]
 	rw.w.DA.Latency = time.Duration(s.Cfg["dalat"]) * time.Millisecond
+	rw.w.DA.DeafSubmit = s.Cfg["deafda"] == 1
 	ledger := sim.NewLedger(rw.w, agg.sn)
 	envDone := make(chan struct{})
 	var envWG sync.WaitGroup
@@ -480,6 +481,7 @@ func c13RestartBody(t *testing.T, s *sim.Scn, o *sim.Outcome) {
 		case "stop", "kill":
 			if rn == agg && op.K == "kill" {
 				o.Count("timeline:seq-killed-or-cut", 1)
+				o.Count("timeline:seq-killed", 1)
 			}
 			rn.wantUp = false
 			if !rw.stop(rn, op.K == "kill", i) {
@@ -755,6 +757,31 @@ func c13RestartBody(t *testing.T, s *sim.Scn, o *sim.Outcome) {
 		}
 		o.Count("whole-node:blocks-synced", int(fh))
 	}
+	// C07, liveness on the sequencer node. Its marks live in memory and are saved by an orderly stop (a recorded
+	// finding: they are lost when the process dies). A sequencer that was never killed in this timeline has therefore
+	// noted every acceptance the DA layer acknowledged to it: what was accepted and acknowledged before the final phase
+	// must be reported as DA-included after it.
+	if o.Counters["timeline:seq-killed"] == 0 {
+		ackOn := uint64(0)
+		for x := uint64(1); x <= target; x++ {
+			hok := len(ledger.AccHEpochs[x]) > 0
+			dok := true
+			if empty, err := ledger.BlockEmpty(x); err == nil && !empty {
+				dok = len(ledger.AccDEpochs[x]) > 0
+			}
+			if !hok || !dok {
+				break
+			}
+			ackOn = x
+		}
+		if agg.lastIncluded < ackOn {
+			o.Fail("C13/invariant-C07-violated", "C13/invariant-C07-violated/da-included-not-reached/seq", -1,
+				fmt.Sprintf("the sequencer node (started %d times, never killed) has both parts of every block up to %d accepted by the DA layer and acknowledged, but after a fault-free final phase of %v its DA-included height is %d", agg.starts, ackOn, final, agg.lastIncluded),
+				"once both parts of every block up to h are on the DA layer the node eventually reports h, including after a restart")
+			return
+		}
+		o.Count("whole-node:sequencer-inclusion-judged", 1)
+	}
 	o.Count("whole-node:blocks-produced", int(ah))
 	o.Count("whole-node-restart-timelines", 1)
 	o.NonTrivial = o.Counters["timeline:start"] > 0 || o.Counters["timeline:cut"] > 0
@@ -782,7 +809,7 @@ func c13RestartGen(r *rand.Rand, tier string) *sim.Scn {
 	s := &sim.Scn{Cfg: map[string]int64{
 		"restart": 1, "nfull": r.Int64N(2), "bt": []int64{250, 500, 1000}[r.IntN(3)], "dat": []int64{1000, 3000}[r.IntN(2)],
 		"lazy": r.Int64N(2), "maxpending": []int64{0, 0, 3}[r.IntN(3)], "dalat": []int64{0, 5, 50}[r.IntN(3)], "linkms": []int64{0, 3, 18, 38}[r.IntN(4)], "eager": r.Int64N(2), "light": []int64{0, 0, 1}[r.IntN(3)], "p2ponly": r.Int64N(2),
-		"jitter": []int64{0, 0, 40, 400, 4000}[r.IntN(5)], "jsalt": r.Int64N(1 << 30),
+		"jitter": []int64{0, 0, 40, 400, 4000}[r.IntN(5)], "jsalt": r.Int64N(1 << 30), "deafda": r.Int64N(2),
 	}}
 	n := 4 + r.IntN(10)
 	for i := 0; i < n; i++ {
@@ -809,6 +836,10 @@ func c13RestartGen(r *rand.Rand, tier string) *sim.Scn {
 	}
 	if tier != "thorough" && s.Cfg["jitter"] > 400 {
 		s.Cfg["jitter"] = 400 // the slowest goroutines make a whole-node scenario take minutes: thorough tier only
+	}
+	if s.Cfg["deafda"] == 1 {
+		// a DA layer that takes its time and answers whatever happened to the caller: stops land inside submissions
+		s.Cfg["dalat"] = []int64{50, 300, 900}[r.IntN(3)]
 	}
 	return s
 }
